@@ -19,6 +19,10 @@ import (
 
 var once sync.Once
 
+// RegistryWrap, when set (process-wide, by a check's worker), wraps the undecorated filesystem
+// registry of every mirror transaction; setTID is called once the transaction id is known.
+var RegistryWrap func(folder string, r sop.Registry) (wrapped sop.Registry, setTID func(tid sop.UUID))
+
 // InstallGlobals registers the decorated in-memory L2 cache as THE sop.InMemory cache (public path
 // included) and routes direct I/O through the plan. Must run before the first sop.GetL2Cache call.
 func InstallGlobals() {
@@ -56,13 +60,21 @@ func NewTransaction(ctx context.Context, folder string, mode sop.TransactionMode
 		config.RegistryHashModValue = i
 	}
 	tl := fs.NewTransactionLog(l2, rt)
+	var reg sop.Registry = fs.NewRegistry(config.Mode == sop.ForWriting, config.RegistryHashModValue, rt, l2)
+	var setTID func(sop.UUID)
+	if RegistryWrap != nil {
+		reg, setTID = RegistryWrap(folder, reg)
+	}
 	t, err := common.NewTwoPhaseCommitTransaction(config.Mode, config.MaxTime,
 		&deco.BlobStore{In: fs.NewBlobStore(folder, nil, nil)},
 		&deco.StoreRepository{In: sr},
-		&deco.Registry{In: fs.NewRegistry(config.Mode == sop.ForWriting, config.RegistryHashModValue, rt, l2)},
+		&deco.Registry{In: reg},
 		l2, deco.NewTransactionLog(tl))
 	if err != nil {
 		return nil, err
+	}
+	if setTID != nil {
+		setTID(t.GetID())
 	}
 	rt.SetTransactionID(t.GetID())
 	return sop.NewTransaction(mode, t)
